@@ -57,6 +57,7 @@ import r65_returnroles
 import r66_optionsfamily
 import r67_setterfield
 import r68_nosplit
+import r69_gather
 import r06_validate
 import r07_cache
 import r08_toporder
@@ -271,6 +272,10 @@ def r56(ctx, prop):
 
 def r57(ctx, prop):
     return r57_roleslot.run(ctx.F())
+
+
+def r69(ctx, prop):
+    return r69_gather.run(ctx.F())
 
 
 def r68(ctx, prop):
@@ -558,9 +563,9 @@ PROPERTY_RULES = {
     "C10": [r10_selector, r8, r1_idealgas, r3, r19, r25, r29, r10_selconst, r1_guard_idealgas, r44],
     "C14": [r14, r13, r10_identifier, r21, r27, r28, r38, r40, r47, r20b, r49],
     "C12": [r4, r16, r50, r54, r24, r61, r63],
-    "C19": [r55, r1_functional, r8, r21, r10_selconst, r62, r18],
+    "C19": [r55, r1_functional, r8, r21, r10_selconst, r62, r18, r69],
     "C15": [r15],
-    "C16": [r51, r52, r53, r56, r48, r10_selconst, r55, r64, r18],
+    "C16": [r51, r52, r53, r56, r48, r10_selconst, r55, r64, r18, r69],
     "C20": [r10_transport, r21, r25, r24, r34, r10_selconst, r41, r47, r60],
     "C01": [r1_all, r2, r7, r8, r4, r25, r24, r26, r28, r29, r39, r40, r44, r20b, r10_selconst],
     "C13": [r1_guard, r8, r21, r32, r36, r43],
@@ -571,7 +576,7 @@ PROPERTY_RULES = {
     "C05": [r4, r5, r16, r25, r24, r26, r31, r10_selconst, r39, r40, r43, r44, r46, r57, r65, r66, r68],
     "C06": [r4, r1_all, r21, r25, r24, r26, r28, r31, r39, r40, r20b, r50, r59, r66],
     "C07": [r5, r4, r25, r24, r26, r31, r10_selconst, r40, r43, r46, r66, r68],
-    "C18": [r4, r16, r25, r24, r26, r35, r39, r40, r42, r44, r45, r18],
+    "C18": [r4, r16, r25, r24, r26, r35, r39, r40, r42, r44, r45, r18, r69],
 }
 
 
